@@ -14,7 +14,7 @@ func FilterTG(p *prog.Program, log []Rec) []Rec {
 			"listening", "observed", "deliver", "delivered", "cancel", "infra", "other":
 			out = append(out, r)
 		case "completion":
-			if n := p.Node(r.Node); n != nil && n.Kind == "end" {
+			if n := p.Node(r.Node); n != nil && n.Kind == "end" && n.Scope == "" {
 				r.Ev = "end"
 				out = append(out, r)
 			}
